@@ -167,7 +167,7 @@ def gen_schemas(r: random.Random, o: Opts) -> dict:
             own = {k: v for k, v in props.items() if k not in _all_props(schemas, parent)}
             if not o.name_clash:
                 # promoted names inside an allOf part lose the parent prefix and collide across schemas: keep parts flat
-                own = {k: v for k, v in own.items() if "properties" not in v and "oneOf" not in v and "anyOf" not in v
+                own = {k: v for k, v in own.items() if "properties" not in v and "additionalProperties" not in v and "oneOf" not in v and "anyOf" not in v
                        and not (v.get("type") == "array" and "properties" in v.get("items", {}))}
             part: dict = {"type": "object", "properties": own}
             reqo = [p for p in own if r.random() < 0.4]
